@@ -164,7 +164,9 @@ def gen_decl(rng, derive, style, k):
             eattr = rng.choice([[], ["ignore"], ["ref"]])
     else:
         r = rng.random()
-        if style in ("plain", "vref", "whitelist"):
+        if style == "vsel":
+            eattr = rng.sample(["owned", "ref", "ref_mut"], rng.choice([1, 1, 2, 2, 3]))
+        elif style in ("plain", "vref", "whitelist"):
             if derive == "TryInto":
                 eattr = rng.choice([None, ["owned"], ["ref"], ["owned", "ref"], ["owned", "ref", "ref_mut"], ["ref_mut"],
                                     ["ref", "ref_mut"], ["owned", "ref_mut"]])
@@ -186,12 +188,19 @@ def gen_decl(rng, derive, style, k):
         elif style == "whitelist":
             if r < 0.5:
                 v["attr"] = []
+        elif style == "vsel":
+            if r < 0.2:
+                v["attr"] = ["ignore"]
+            elif r < 0.65:
+                v["attr"] = rng.sample(["owned", "ref", "ref_mut"], rng.choice([1, 1, 2, 3]))
         else:
             if r < 0.6:
                 allowed = ["ignore", "owned", "ref", "ref_mut"]
                 v["attr"] = rng.choice([[], ["ignore"], ["owned"], ["ref"], ["ref_mut"], ["ref", "ref_mut"],
                                         ["owned", "ref"], ["ref", "ignore"], ["ignore", "owned"],
                                         rng.sample(allowed, rng.randrange(0, 4))])
+    if style == "vsel" and not any(is_selection(v["attr"]) for v in variants):
+        variants[-1]["attr"] = [rng.choice([m for m in ["owned", "ref", "ref_mut"] if m not in eattr] or ["ref"])]
     if style == "whitelist" and not any(v["attr"] == [] for v in variants):
         variants[0]["attr"] = []
     if style == "vref" and not any(v["attr"] and "ignore" not in v["attr"] for v in variants):
@@ -339,8 +348,10 @@ def oracle_obs(d, acc, vi):
     if not doc_ignored(d, y) and tuple(f["ty"] for f in y["fields"] if f["attr"] != ["ignore"]) == tuple(tys):
         if mode in doc_modes(d, y):
             return [ok]
+        if mode == "owned" and any(is_selection(w["attr"]) for w in d["variants"]):
+            return [ok, ("E", True)]      # by-value conversion not selected for this variant but generated for others
         if mode == "owned":
-            return [ok, ("E", True)]      # by-value conversion not selected for this variant but generated anyway
+            return [ok]                   # the extra by-value impl of an enum-level `ref`-only selection serves every variant
         return [("E", True)]              # this variant did not select the reference kind
     return [("E", True)]
 
@@ -392,7 +403,12 @@ def known_variant_ref_shape(d, missing):
         enum_modes = set(SEL[a] for a in (d["attr"] or []) if a in SEL)
         only_on_variant = k[2] != "owned" and k[2] not in enum_modes and SEL_INV[k[2]] in (v["attr"] or [])
         whitelisted_out = v["attr"] is None and d["attr"] is None and sel_somewhere
-        if not (only_on_variant or whitelisted_out):
+        # third symptom of the same first-match rule (utils.rs:448-450): the by-value default is switched off for the
+        # whole enum when the first attributed variant names ref_mut together with ref or owned
+        first = next((w["attr"] for w in d["variants"] if w["attr"] is not None), None)
+        owned_default_off = k[2] == "owned" and "owned" not in (d["attr"] or []) and first is not None and \
+            "ref_mut" in first and ("ref" in first or "owned" in first)
+        if not (only_on_variant or whitelisted_out or owned_default_off):
             return False
     return True
 
@@ -858,6 +874,15 @@ def corpus():
          V("C", "tuple", ["i32"]), V("D", "tuple", ["u8", "i32", "u8"], fattrs={1: ["ignore"]}), V("E", "tuple", ["u8", "u8"]),
          V("U1"), V("U2", "tuple", []), V("U3", "tuple", ["i32"], fattrs={0: ["ignore"]})])
     add("TryInto", "none", ["ref"], [V("A", "tuple", ["i32"], attr=[]), V("B", "tuple", ["i32"]), V("C", "tuple", ["u8"], attr=[])])
+    add("TryInto", "none", ["owned", "ref"], [V("Small", "tuple", ["i32"]), V("Big", "tuple", ["u64"], attr=["ref_mut"]),
+                                              V("Other", "tuple", ["u64"]), V("Skip", "tuple", ["u64"], attr=["ignore"])])
+    add("TryInto", "T", ["ref_mut"], [V("A", "tuple", ["Vec<T>", "i32"], attr=["owned"]), V("B", "named", ["Vec<T>", "i32"], attr=["ref"]),
+                                      V("C", "tuple", ["Vec<T>", "i32"]), V("D", attr=["ref", "owned"])])
+    for dv in ("Unwrap", "TryUnwrap"):     # ignored variants in leading / middle position
+        add(dv, "none", ["ref", "ref_mut"], [V("Hidden", "tuple", ["i32"], attr=["ignore"]), V("Circle", "tuple", ["i32"]),
+                                             V("Gone", attr=["ignore"]), V("Square", "tuple", ["i32", "u8"]), V("Last")])
+    add("IsVariant", "none", None, [V("Hidden", attr=["ignore"]), V("Circle", "tuple", ["i32"]), V("Gone", "named", ["u8"], attr=["ignore"]),
+                                    V("Square")])
     add("TryInto", "TU", ["owned", "ref"], [V("A", "tuple", ["Vec<T>", "Option<U>"]), V("B", "named", ["Vec<T>", "Option<U>"]),
                                             V("C", "tuple", ["Option<U>", "Vec<T>"])])
     add("IsVariant", "none", None, [V("fn", "tuple", ["i32"], raw=True), V("HTTPServer"), V("Ab_Cd", "named", ["i32"]),
@@ -908,7 +933,7 @@ def run(tier, seed, replay):
             styles = {"IsVariant": ["plain"] * 6 + ["wild"] * 2,
                       "Unwrap": ["plain"] * 4 + ["vref"] * 2 + ["wild"] * 2,
                       "TryUnwrap": ["plain"] * 4 + ["vref"] * 2 + ["wild"] * 2,
-                      "TryInto": ["plain"] * 5 + ["whitelist"] * 2 + ["wild"] * 2}[dv]
+                      "TryInto": ["plain"] * 4 + ["vsel"] * 3 + ["whitelist"] * 1 + ["wild"] * 2}[dv]
             for _ in range(n_rt):
                 decls.append(gen_decl(rng, dv, rng.choice(styles), 0))
         matrix = attr_matrix()
